@@ -25,12 +25,14 @@ BINARIES = {
     "c20": ("zzverif/cmd/c20", False),
     "cachefile": ("zzverif/cmd/cachefile", False),
     "c10": ("zzverif/cmd/c10", True),
+    "pipe": ("vflow", True),
 }
 
 
 # instrumented copies (tools/goinstr) that replace package files in the overlay: name -> [(package dir, [files], rename-main)]
 INSTRUMENT = {
     "c10": [("ipfix", ["memcache.go"], None), ("netflow/v9", ["memcache.go"], None)],
+    "pipe": [("vflow", ["ipfix.go", "sflow.go", "netflow_v5.go", "netflow_v9.go", "vflow.go", "ipfix_unix.go", "sflow_unix.go"], "vflowMain")],
 }
 
 
@@ -322,7 +324,7 @@ def sched_env(tag):
     import shutil
     shutil.rmtree(d, ignore_errors=True)
     os.makedirs(d, exist_ok=True)
-    return d, {"GORACE": "log_path=%s/race halt_on_error=0" % d, "VERIF_TMP": d, "GOMAXPROCS": "4"}
+    return d, {"GORACE": "log_path=%s/race halt_on_error=0 exitcode=0" % d, "VERIF_TMP": d, "GOMAXPROCS": "4"}
 
 
 SCHED_ASSUME = ["scheduling points: every lock/unlock, channel operation, select, atomic, pool Get/Put, go statement, sleep, socket read; code between two points runs atomically (sound for race-free code; unsynchronized accesses are caught by the race detector in the same executions)",
@@ -345,6 +347,39 @@ def c10(tier):
                        "states = executions (complete schedules), transitions = scheduling steps; non-trivial = distinct observation logs per scenario.",
                   assumptions=SCHED_ASSUME + ["3 threads, <=2 operations each; template versions have equal record length and different field lists so the version used is visible"],
                   extra_cov={"executions": r.extra.get("executions", 0), "distinct_observation_logs": r.extra.get("distinct_observation_logs", 0), "preemption_bound": 3 if tier == "thorough" else 2}, t0=t0)
+
+
+PIPE_ASSUME = SCHED_ASSUME + ["the real run() receive loop, the workers it spawns and their helper goroutines run as scheduler threads; sockets, clock, pools and select choices are environment seams (tools/goinstr rewrites the package's own files mechanically on every run)",
+                              "package-level queues are re-created per execution by the harness (capacity 1000 as in production); producer, dynamic workers, RPC and stats HTTP are configured off",
+                              "deviation = any departure from the default scheduler (run new goroutines at their parent's next point, keep the current thread while enabled, else lowest id) or from the default environment answer (pool: most recently put buffer; select: first ready case)"]
+
+
+def pipe_check(pid, space, tier, rule, extra_assume):
+    t0 = time.time()
+    b = build("pipe")
+    d, env = sched_env(pid.lower())
+    res = [run_space(b, space, tier, env=env, hang_s=180)]
+    import shutil
+    shutil.rmtree(d, ignore_errors=True)
+    r = res[0]
+    return finish(pid, tier, res, rule=rule, assumptions=PIPE_ASSUME + extra_assume,
+                  extra_cov={"executions": r.extra.get("executions", 0), "executions_by_deviations": {k: v for k, v in r.extra.items() if k.startswith("executions_with")}}, t0=t0)
+
+
+@check("C12")
+def c12(tier):
+    return pipe_check("C12", "pipe.c12", tier,
+                      "per pipeline (ipfix, netflow9, netflow5, sflow): three datagrams of different sizes from two exporters in 3 arrival orders with 1 and 2 workers (quick: 3 orders x 1 worker + 1 order x 2 workers), plus for ipfix/netflow9 an in-band template followed by its data; every schedule with at most 2 (thorough 3) deviations incl. pool Get answers (most recent / fresh / oldest buffer). "
+                      "Oracle at quiescence: the multiset of payloads taken from the real message-queue channel equals, byte for byte, the standalone decode+marshal of each record-bearing datagram (sFlow modulo ColTime); no race report. states = executions, transitions = scheduling steps, non-trivial = distinct (scenario, outcome).",
+                      ["templates are preloaded from a cache file so that each datagram's standalone output is schedule-independent (the in-band variant only checks 'no duplicate, nothing foreign')"])
+
+
+@check("C13")
+def c13(tier):
+    return pipe_check("C13", "pipe.c13", tier,
+                      "per pipeline: every sequence of length 1..2 (thorough 1..3) over the datagram classes {decodable data, wrong version, truncated, template-only, unknown-template data | count 0 (v5) | only-unknown-samples, (sFlow) all samples filtered} plus two chosen triples, with 1 and 2 workers; every schedule with at most 1 deviation (2 for single datagrams; thorough 2 everywhere). "
+                      "Oracle at quiescence: UDPCount = datagrams delivered, DecodedCount = datagrams the protocol's decoder accepts, exactly one payload per record-bearing datagram and none otherwise, no payload twice, nothing left unread.",
+                      ["'decodes successfully' is taken as: the protocol's decoder returns a message (for sFlow: decodes and has a sample left) - the check pins once-ness, not that definition", "the outgoing queue (capacity 1000) never fills with <=3 datagrams"])
 
 
 def main(argv):
